@@ -62,6 +62,14 @@ class Canon:
         if v is None or isinstance(v, (bool, str)):
             return repr(v)
         st = f":{type(v).__name__}" if self.scalar_types else ""
+        if not self.scalar_types:
+            # numbers are identified the way Python (and with it pymbolic's
+            # and pytato's ==) identifies them: by value, 0 == 0.0 == 0j
+            if isinstance(v, (complex, np.complexfloating)) \
+                    and complex(v).imag == 0:
+                v = complex(v).real
+            if isinstance(v, (float, np.floating)) and float(v).is_integer():
+                v = int(v)
         if isinstance(v, (int, np.integer)):
             return f"int:{int(v)}{st}"
         if isinstance(v, (float, np.floating)):
@@ -113,8 +121,13 @@ class Canon:
                 data = f"dw@{tok}"
             else:
                 d = v.data
-                data = self._ndarray(d) if isinstance(d, np.ndarray) \
-                    else f"dwdata:{type(d).__name__}"
+                if isinstance(d, np.ndarray):
+                    data = self._ndarray(d)
+                elif isinstance(d, np.generic):
+                    # a numpy scalar is not a 0-d array (another object kind)
+                    data = "scalar-" + self._ndarray(np.asarray(d))
+                else:
+                    data = f"dwdata:{type(d).__name__}"
             parts = [f"data={data}"]
             for name, val in field_items(v):
                 if name == "data":
